@@ -89,25 +89,41 @@ Record Rel (g : ghost) (f : frame) (ob : nat -> obj) (n : nat) (sn sd : list nat
   r_n : gn g <= n;
   r_exp : forall o, o < gn g -> expunged f sn o = true ->
             okey (gobjs g o) = None /\ oatt (gobjs g o) = false;
+  (* objects unattached then and now carry no obligation (the session does not know them) *)
   r_id : forall o, o < gn g -> expunged f sn o = false ->
-            pkey f ob o = okey (gobjs g o) /\ oatt (ob o) = oatt (gobjs g o) /\ pdelf f ob sd o = odelf (gobjs g o);
-  r_fresh : forall o, gn g <= o -> o < n -> expunged f sn o = true \/ (okey (ob o) = None /\ oatt (ob o) = false);
+            oatt (ob o) = oatt (gobjs g o) /\
+            (oatt (gobjs g o) = true -> pkey f ob o = okey (gobjs g o) /\ pdelf f ob sd o = odelf (gobjs g o));
+  r_fresh : forall o, gn g <= o -> o < n -> expunged f sn o = true \/ (oatt (ob o) = false /\ oin (ob o) = false);
   (* rows of objects the frame did not write are the rows of the snapshot *)
   r_row : forall o k, o < gn g -> expunged f sn o = false -> oin (gobjs g o) = true ->
             mem o (fdirty f) = false -> mem o (fdel f) = false -> okey (gobjs g o) = Some k -> W k = gW g k;
   (* objects deleted inside the frame keep the values they had *)
   r_delv : forall o k v, o < gn g -> expunged f sn o = false -> mem o (fdel f) = true ->
             mem o (fdirty f) = false -> omod (ob o) = false -> okey (gobjs g o) = Some k -> gW g k = Some v ->
-            (odid (ob o) = None \/ odid (ob o) = Some k) /\ odv (ob o) = Some v;
+            (odid (ob o) = None \/ odid (ob o) = Some k) /\ (odv (ob o) = None \/ odv (ob o) = Some v);
   r_ks : forall o old new, ks_find o (fks f) = Some (old, new) ->
             o < n /\ okey (ob o) = Some new /\ oatt (ob o) = true /\ (mem o (fnew f) = true \/ mem o (fdirty f) = true);
   r_del : forall o, mem o (fdel f) = true ->
-            o < n /\ oin (ob o) = false /\
-            (mem o (fnew f) = true \/ (odelf (ob o) = true /\ oatt (ob o) = true /\ okey (ob o) <> None));
+            o < n /\ oin (ob o) = false /\ odelf (ob o) = true /\ oatt (ob o) = true /\ okey (ob o) <> None;
   r_lists : forall o, (mem o (fnew f) = true \/ mem o (fdirty f) = true) -> o < n;
-  (* objects that had an identity but were not in the identity map when the frame began (deleted state,
-     detached) are only ever changed by attribute assignments, which mark them modified *)
-  r_keep : forall o, o < gn g -> okey (gobjs g o) <> None -> oin (gobjs g o) = false -> omod (ob o) = false ->
+  (* what was flushed as dirty was in the identity map when the frame began, or is new in the frame *)
+  r_dirty : forall o, mem o (fdirty f) = true -> mem o (fnew f) = true \/ (o < gn g /\ oin (gobjs g o) = true);
+  (* objects in the deleted state when the frame began are only ever changed by attribute assignments,
+     which mark them modified *)
+  r_keep : forall o, o < gn g -> oatt (gobjs g o) = true -> oin (gobjs g o) = false -> omod (ob o) = false ->
+            odid (ob o) = odid (gobjs g o) /\ odv (ob o) = odv (gobjs g o) /\ omod (gobjs g o) = false
+}.
+
+(* the state right after a restore of the frame whose snapshot is [g]: identities are those of the
+   snapshot, loaded values are those of the snapshot or expired, nothing is modified *)
+Record Approx (g : ghost) (ob : nat -> obj) (n : nat) : Prop := mkApprox {
+  a_n : gn g <= n;
+  a_id : forall o, o < gn g ->
+           oatt (ob o) = oatt (gobjs g o) /\ oin (ob o) = oin (gobjs g o) /\
+           (oatt (gobjs g o) = true -> okey (ob o) = okey (gobjs g o) /\ odelf (ob o) = odelf (gobjs g o));
+  a_fresh : forall o, gn g <= o -> o < n -> oatt (ob o) = false /\ oin (ob o) = false;
+  a_clean : forall o, oin (ob o) = true -> omod (ob o) = false;
+  a_keep : forall o, o < gn g -> oatt (gobjs g o) = true -> oin (gobjs g o) = false -> omod (ob o) = false ->
             odid (ob o) = odid (gobjs g o) /\ odv (ob o) = odv (gobjs g o) /\ omod (gobjs g o) = false
 }.
 
@@ -151,7 +167,11 @@ Definition Chain (st : sess) (gs : list ghost) : Prop :=
   match stack st, gs with
   | [], [] => True
   | f :: fs', g :: gs' =>
-      GClean g /\ Rel g f (objs st) (nobj st) (snew st) (sdel st) (work st) /\ ChainG g fs' gs'
+      GClean g /\
+      (match fstate f with
+       | ACTIVE => Rel g f (objs st) (nobj st) (snew st) (sdel st) (work st)
+       | _ => Approx g (objs st) (nobj st) /\ snew st = [] /\ sdel st = [] /\ (forall k, work st k = gW g k)
+       end) /\ ChainG g fs' gs'
   | _, _ => False
   end.
 
